@@ -81,12 +81,15 @@ def run_check(pid, tier, seed, table, no_proofs=False):
     seen = set()
     nontrivial = 0
     kpairs = []
+    kcalls = []
     want_kernel = os.environ.get("OSV_KERNEL", "1") == "1"
     for suite_name, kwargs, proj, n in spec["corr"]:
         cases = table.build_suite(suite_name, rng, n * mult, tier, **kwargs)
         mo = enc.run_model(cases)
         if want_kernel and suite_name in ("order", "validate", "ops"):
             kpairs.extend((suite_name, c, m) for c, m in zip(cases, mo))
+        if want_kernel:
+            kcalls.extend(c for c, m in zip(cases, mo) if c["op"] in ("rate", "pwin", "pdraw", "prank") and m.get("exc") is None)
         for c, m in zip(cases, mo):
             i = impl.run_case(c)
             corr_cases += 1
@@ -119,6 +122,20 @@ def run_check(pid, tier, seed, table, no_proofs=False):
                              "diffs": ["kernel evaluation (vm_compute) differs from the extracted model"], "impl": {}, "model": m})
         if kres["error"]:
             corr_bad.append({"suite": "in-kernel", "case": {}, "line": "", "diffs": ["coqc failed on generated cases: " + kres["error"][-400:]],
+                             "impl": {}, "model": {}})
+    # ---------------- 3c. whole rate / predict calls evaluated inside Coq on Flocq's binary64 (libm as the tables of the
+    # calls the extracted run made): extracted OCaml run = vm_compute on the model's definitions, bit for bit
+    cres = None
+    if kcalls:
+        from . import kernel
+        rng_k = random.Random(seed ^ 0x5EED)
+        rng_k.shuffle(kcalls)
+        cres = kernel.run_calls(kcalls, 48 if tier == "quick" else 1500)
+        for c in cres["disagreements"][:5]:
+            corr_bad.append({"suite": "calls (in-kernel, binary64)", "case": c, "line": enc.case_line(c),
+                             "diffs": ["kernel evaluation (vm_compute on Flocq binary64) differs from the extracted model"], "impl": {}, "model": {}})
+        if cres["error"]:
+            corr_bad.append({"suite": "in-kernel", "case": {}, "line": "", "diffs": ["coqc failed on generated cases: " + cres["error"][-400:]],
                              "impl": {}, "model": {}})
     # ---------------- 4. monitor
     mon = None
@@ -202,6 +219,9 @@ def run_check(pid, tier, seed, table, no_proofs=False):
         "in_kernel_correspondence": kres and {"evaluated_by_vm_compute": kres["evaluated"],
                                               "evaluated_on_flocq_binary64": kres.get("evaluated_on_binary64", 0), "files": kres["files"],
                                               "disagreements": len(kres["disagreements"]), "error": kres["error"]},
+        "in_kernel_whole_calls": cres and {"rate_predict_calls_evaluated_on_flocq_binary64": cres["evaluated"], "files": cres["files"],
+                                           "libm_calls_tabulated": cres["libm_calls_tabulated"],
+                                           "disagreements": len(cres["disagreements"]), "error": cres["error"]},
         "monitor": {"evaluations": mon.evaluations if mon else 0, "distinct_nontrivial": mon.nontrivial if mon else 0,
                     "failures": len(mon_fail), "distribution": mon.dist if mon else {}, "search_evaluations": searched},
         "known_findings_reported": sorted({k["id"] for k, _ in reported_known}),
